@@ -12,7 +12,8 @@ Init ==
     \/ /\ kind = "len" /\ op \in LenOps
        /\ n \in 0..MaxN /\ m \in 0..MaxN /\ k \in 0..(MaxN * 2)
        /\ (op \in {"pop_back", "pop_front", "remove", "into_array", "from_array", "asref_array", "into_tuple", "from_tuple",
-                   "append_ann", "prepend_ann", "pop_ann", "map_ann", "from_slice_infer"} => m = 0)
+                   "append_ann", "prepend_ann", "pop_ann", "map_ann", "from_slice_infer",
+                   "from_chunks", "from_chunks_mut", "into_chunks", "into_chunks_mut"} => m = 0)
        /\ (op \in {"zip", "eq", "lt", "pop_back", "pop_front", "remove"} => k = 0)
        /\ (op = "split" => m = 0)
        /\ (op \in {"into_tuple", "from_tuple"} => n >= 1 /\ k >= 1)
